@@ -363,6 +363,10 @@ func c04HandlerCases(fd *ast.FuncDecl) [][]string {
 	if !done {
 		fail("C04: HandleAccountSpend: classification decision list not found")
 	}
+	// within one case the classifiers are `||`-ed: a set
+	for _, c := range cases {
+		sort.Strings(c)
+	}
 	return cases
 }
 
@@ -439,6 +443,100 @@ func c04AssignsTo(st ast.Stmt, name string) bool {
 		return true
 	})
 	return found
+}
+
+// c04DefiningStmts returns the top-level statements of body that (transitively)
+// define the local `name`: statements assigning name, or assigning a local a
+// right-hand side of those statements mentions.
+func c04DefiningStmts(body *ast.BlockStmt, name string, params []string) []ast.Stmt {
+	isParam := map[string]bool{}
+	for _, p := range params {
+		isParam[p] = true
+	}
+	want := map[string]bool{name: true}
+	for changed := true; changed; {
+		changed = false
+		for _, st := range body.List {
+			hit := false
+			for w := range want {
+				hit = hit || c04AssignsTo(st, w)
+			}
+			if !hit {
+				continue
+			}
+			ast.Inspect(st, func(n ast.Node) bool {
+				var rhs []ast.Expr
+				switch x := n.(type) {
+				case *ast.AssignStmt:
+					for _, l := range x.Lhs {
+						if id, ok := l.(*ast.Ident); ok && want[id.Name] {
+							rhs = x.Rhs
+						}
+					}
+				case *ast.ValueSpec:
+					rhs = x.Values
+				}
+				for _, r := range rhs {
+					ast.Inspect(r, func(m ast.Node) bool {
+						if se, ok := m.(*ast.SelectorExpr); ok {
+							// only the root of a selector chain can be a local
+							if id, ok := se.X.(*ast.Ident); ok && !isParam[id.Name] && !want[id.Name] && c04IsLocal(body, id.Name) {
+								want[id.Name] = true
+								changed = true
+							}
+							return false
+						}
+						if id, ok := m.(*ast.Ident); ok && !isParam[id.Name] && !want[id.Name] && c04IsLocal(body, id.Name) {
+							want[id.Name] = true
+							changed = true
+						}
+						return true
+					})
+				}
+				return true
+			})
+		}
+	}
+	var res []ast.Stmt
+	for _, st := range body.List {
+		for w := range want {
+			if c04AssignsTo(st, w) {
+				res = append(res, st)
+				break
+			}
+		}
+	}
+	return res
+}
+
+// c04IsLocal: name is declared by a top-level `:=` / `var` of body with a
+// single-valued right-hand side (multi-value call results stay opaque).
+func c04IsLocal(body *ast.BlockStmt, name string) bool {
+	for _, st := range body.List {
+		switch x := st.(type) {
+		case *ast.AssignStmt:
+			if x.Tok == token.DEFINE && len(x.Lhs) == len(x.Rhs) {
+				for _, l := range x.Lhs {
+					if id, ok := l.(*ast.Ident); ok && id.Name == name {
+						return true
+					}
+				}
+			}
+		case *ast.DeclStmt:
+			if gd, ok := x.Decl.(*ast.GenDecl); ok {
+				for _, sp := range gd.Specs {
+					if vs, ok := sp.(*ast.ValueSpec); ok {
+						for _, id := range vs.Names {
+							if id.Name == name {
+								return true
+							}
+						}
+					}
+				}
+			}
+		}
+	}
+	return false
 }
 
 // c04CallArg finds the first call whose callee's selector / name is fn and
@@ -662,12 +760,7 @@ func genC04() {
 			if len(params) != 7 || ltID == nil {
 				fail("C04: spendAccount: signature / lock-time argument of signSpendTx not recognised")
 			} else {
-				var stmts []ast.Stmt
-				for _, st := range fd.Body.List {
-					if c04AssignsTo(st, ltID.Name) {
-						stmts = append(stmts, st)
-					}
-				}
+				stmts := c04DefiningStmts(fd.Body, ltID.Name, params)
 				if len(stmts) == 0 {
 					fail("C04: spendAccount: no statement sets the lock time")
 				}
@@ -716,12 +809,7 @@ func genC04() {
 			} else if id, ok := c04CallArg(fd.Body, "spendAccount", 4).(*ast.Ident); !ok {
 				fail("C04: %s: witness type argument of spendAccount not recognised", fn)
 			} else {
-				var stmts []ast.Stmt
-				for _, st := range fd.Body.List {
-					if c04AssignsTo(st, id.Name) {
-						stmts = append(stmts, st)
-					}
-				}
+				stmts := c04DefiningStmts(fd.Body, id.Name, c04ParamNames(fd.Type))
 				viaDWT := false
 				for _, st := range stmts {
 					ast.Inspect(st, func(n ast.Node) bool {
@@ -743,6 +831,14 @@ func genC04() {
 							ast.Inspect(st, func(n ast.Node) bool {
 								if se, ok := n.(*ast.SelectorExpr); ok && se.Sel.Name == "Version" {
 									sels[exprString(se)] = true
+								}
+								// an account handed to a helper that holds the rule
+								if c, ok := n.(*ast.CallExpr); ok {
+									for _, a := range c.Args {
+										if id, ok := c04Unparen(a).(*ast.Ident); ok {
+											sels[id.Name+".Version"] = true
+										}
+									}
 								}
 								return true
 							})
@@ -952,6 +1048,15 @@ func genC04() {
 			case *ast.RangeStmt:
 				walk(x.Body, ev, path, visit)
 			default:
+				// bind simple local definitions so that hoisted conditions are followed
+				switch st := n.(type) {
+				case *ast.AssignStmt:
+					if len(st.Lhs) == len(st.Rhs) {
+						ev.stmt(st)
+					}
+				case *ast.DeclStmt:
+					ev.stmt(st)
+				}
 				visit(n, path)
 				ast.Inspect(n, func(m ast.Node) bool {
 					if m == nil || m == n {
